@@ -61,6 +61,18 @@ impl Drop for Pay {
     }
 }
 
+/// a payload type that is `Clone` (a library-side clone of a payload shows as a second drop of the same id)
+#[derive(Debug, Clone)]
+pub struct PayC {
+    pub id: u32,
+}
+impl Drop for PayC {
+    fn drop(&mut self) {
+        let id = self.id;
+        ST.with(|s| s.borrow_mut().drops.push(format!("pay:{id}")));
+    }
+}
+
 #[derive(Debug, Default, Clone, PartialEq)]
 pub struct D(pub u32);
 
